@@ -400,3 +400,10 @@ def check(run):
     run.bounds += [f"tier={t}: {len(ents)} (operation, parameter) shapes, k=10, NativeGadget over BLS12-381 scalar field, pow2range columns 1..4, max_bit_len 8/9"]
     run.notes.append("Engine C: for each operation the constraint system emitted by the real NativeGadget/NativeChip synthesis is extracted from MockProver and the implication Sys => Spec is decided for all advice/instance assignments by z3-new || cvc5.")
     cengine.run_family(run, "native", ents, timeout=60 if t == "quick" else 600, only=getattr(run, "only", None))
+    from vf.parts import run_parts
+    run_parts(run, "C04")
+
+
+def replay(payload):
+    from vf.parts import replay_parts
+    return replay_parts("C04", payload)
